@@ -34,12 +34,12 @@ MANIFEST = dict(
 
 HARNESS = os.path.join(core.VERIF, 'tools', 'harness', 'c16_impl.py')
 KF_MEMO, KF_ATTR, KF_GLOB = 'F-LOOKUP-MEMO-CROSS', 'F-ATTR-TESTS-CONST-FALSE', 'F-ENV-GLOBALS'
-KF_SUBDIR, KF_SHADOW = 'F-LOOKUP-SUBDIR-NAME', 'F-LOOKUP-USER-GENERAL-FIRST'
+KF_SUBDIR, KF_SHADOW, KF_CHAIN = 'F-LOOKUP-SUBDIR-NAME', 'F-LOOKUP-USER-GENERAL-FIRST', 'F-LOOKUP-CHAIN-PAST-ANY'
 
 
 def load_known_fragment(chk: core.Check) -> None:
     """known_findings.json is merged by the lead from known_findings.d/; until then read our own fragment"""
-    if any(e['id'] in (KF_SUBDIR, KF_SHADOW) for e in chk.known):
+    if any(e['id'] == KF_CHAIN for e in chk.known):
         return
     p = os.path.join(core.VERIF, 'known_findings.d', 'C16.json')
     if os.path.exists(p):
@@ -114,6 +114,27 @@ def enc_roots(case) -> str:
     return '|'.join(enc_list([enc(n) for n in r]) for r in [case['fs']] + list(case.get('fs_more') or []))
 
 
+CHAIN_ENDS_AT_ANY = False   # regenerated fact: the walk of the code stops at pydsdl.Any
+
+
+def prop_chain(chains, cn: str) -> typing.List[str]:
+    """the property: the inheritance chain of a PyDSDL type ENDS AT Any"""
+    ch = chains[cn]
+    return ch[:ch.index('Any') + 1] if 'Any' in ch else ch
+
+
+def code_chain(chains, cn: str) -> typing.List[str]:
+    return prop_chain(chains, cn) if CHAIN_ENDS_AT_ANY else chains[cn]
+
+
+def chain_trigger(chains, case, cn: str) -> bool:
+    """F-LOOKUP-CHAIN-PAST-ANY: an existing loader indexes a template named after a base of pydsdl.Any (abc.ABC)"""
+    beyond = [k for k in chains[cn] if k not in prop_chain(chains, cn)]
+    roots, pkg = loaders(case)
+    idx = set(code_index([n for r in (roots or []) for n in r])) | set(code_index(pkg or []))
+    return any(k in idx for k in beyond)
+
+
 def oracle_rendered(chains, case) -> typing.List[str]:
     """the property: most specific class of the chain with a file named exactly <Class>.j2 in ANY root of the loader chain; the file
     rendered is the one in the first root (user search paths in order, then the package) that has it"""
@@ -121,7 +142,7 @@ def oracle_rendered(chains, case) -> typing.List[str]:
     out = []
     for cn in case['seq']:
         r = 'T'
-        for k in chains[cn]:
+        for k in prop_chain(chains, cn):
             name = k + '.j2'
             hit = next(('U%d' % i for i, root in enumerate(roots or []) if name in root), None)
             if hit is None and pkg is not None and name in pkg:
@@ -134,6 +155,8 @@ def oracle_rendered(chains, case) -> typing.List[str]:
 
 
 def impl_outcomes(got: dict) -> typing.List[str]:
+    if 'out' in got:       # end-to-end stratum: the outcomes were read from the files generate_all wrote
+        return list(got['out'])
     out = []
     for r, sfile in zip(got['res'], got['src']):
         if r is None:
@@ -187,11 +210,12 @@ def shadow_trigger(chains, case, cn: str) -> bool:
     if roots is None or pkg is None:
         return False
     fi, pi = code_index([n for r in roots for n in r]), code_index(pkg)
-    for k in chains[cn]:
+    ch = code_chain(chains, cn)
+    for k in ch:
         if k in fi:
             return False
         if k in pi:
-            return any(a in fi for a in chains[cn][chains[cn].index(k) + 1:])
+            return any(a in fi for a in ch[ch.index(k) + 1:])
     return False
 
 
@@ -313,6 +337,37 @@ def gen_lookup_cases(rng, chains: typing.Dict[str, typing.List[str]], n: int, ti
     return cases
 
 
+E2E_NAMES = ['StructureType', 'UnionType', 'DelimitedType', 'ServiceType', 'CompositeType', 'SerializableType', 'Any', 'ABC']
+
+
+def gen_e2e_cases(rng, n: int) -> typing.List[dict]:
+    """real DSDLCodeGenerator.generate_all over a namespace with a structure, a union, a delimited type and a service: user template
+    dirs (marker templates) incl. sub-directories, a user Any.j2, several dirs, no dir at all (built-in templates), both policies"""
+    def tpl(names):
+        return [x + '.j2' for x in names]
+    cases = [
+        {'lang': 'c', 'policy': 'FIND_FIRST', 'dirs': None},
+        {'lang': 'py', 'policy': 'FIND_FIRST', 'dirs': None},
+        {'lang': 'c', 'policy': 'FIND_FIRST', 'dirs': [tpl(['Any'])]},
+        {'lang': 'py', 'policy': 'FIND_ALL', 'dirs': [tpl(['Any'])]},
+        {'lang': 'c', 'policy': 'FIND_FIRST', 'dirs': [tpl(['StructureType', 'UnionType', 'DelimitedType', 'ServiceType'])]},
+        {'lang': 'c', 'policy': 'FIND_FIRST', 'dirs': [['sub/StructureType.j2', 'CompositeType.j2']]},
+        {'lang': 'c', 'policy': 'FIND_ALL', 'dirs': [['sub/StructureType.j2', 'CompositeType.j2']]},
+        {'lang': 'py', 'policy': 'FIND_FIRST', 'dirs': [tpl(['CompositeType']), tpl(['StructureType', 'CompositeType'])]},
+        {'lang': 'c', 'policy': 'FIND_FIRST', 'dirs': [tpl(['ABC'])]},
+        {'lang': 'c', 'policy': 'FIND_ALL', 'dirs': [tpl(['ABC', 'UnionType'])]},
+        {'lang': 'py', 'policy': 'FIND_FIRST', 'dirs': [['StructureType.inc.j2', 'UnionType.j2', 'parts/ServiceType.j2']]},
+        {'lang': 'c', 'policy': 'FIND_FIRST', 'dirs': [[]]},
+    ]
+    while len(cases) < n:
+        dirs = []
+        for _ in range(rng.choice([1, 1, 2, 3])):
+            names = tpl([x for x in E2E_NAMES if rng.random() < rng.choice([0.15, 0.35, 0.6])])
+            dirs.append(with_decoys(rng, names, E2E_NAMES, 0.4) or [])
+        cases.append({'lang': rng.choice(['c', 'py']), 'policy': rng.choice(['FIND_FIRST', 'FIND_FIRST', 'FIND_ALL']), 'dirs': dirs})
+    return cases
+
+
 def exhaustive_chain_cases(chains) -> typing.List[dict]:
     """thorough: the deepest chain, EVERY pair of subsets of it (user x built-in), lookup of the leaf after its parent (warm memo)"""
     leaf = max(chains, key=lambda c: (len(chains[c]), c))
@@ -348,6 +403,10 @@ def gen_env_cases(rng, d: dict, tier: str) -> typing.List[dict]:
         for n in (tl if full else rng.sample(tl, 8)):
             cases.append({'lang': lang, 'allow': False, 'globals': None, 'filters': None, 'tests': {n: 3},
                           'dsdl': n in dsdl_names or n in d['gen_tests'], 'post': []})
+    # a language without a template package (js) cannot build a DSDLCodeGenerator without user templates: plain environment only
+    for c in cases:
+        if c['lang'] not in (d.get('templates') or {}):
+            c['dsdl'] = False
     # random mixtures, post-construction additions, allow_replacements
     for _ in range(60 if tier == 'quick' else 600):
         lang = rng.choice(langs)
@@ -358,7 +417,7 @@ def gen_env_cases(rng, d: dict, tier: str) -> typing.List[dict]:
             for i in range(rng.randrange(0, k)):
                 out[rng.choice(pool) if rng.random() < 0.35 else fresh_name(rng)] = 10 + i
             return out
-        dsdl = rng.random() < 0.25
+        dsdl = rng.random() < 0.25 and lang in (d.get('templates') or {})
         post = []
         for i in range(rng.randrange(0, 4)):
             kind = rng.choice(['test', 'filter'])
@@ -413,7 +472,7 @@ def env_oracle(c: dict, ref: dict, got: dict, d: dict) -> typing.Optional[str]:
 # ---- main ---------------------------------------------------------------------------------------------------------
 def main(chk: core.Check, replay: typing.Optional[str] = None) -> int:
     load_known_fragment(chk)
-    res = core.coq_check('C16', ['lookup', 'pin_c16_loader', 'pin_c16_env'])
+    res = core.coq_check('C16', ['lookup', 'pin_c16_loader', 'pin_c16_env', 'pin_c16_wiring'])
     chk.proof_coverage(res, [
         'C16 translator tools/translators/gen_c16.py: T1 dump of the pydsdl forest / template listings / bundled jinja2 names / per-language '
         'environment names / RESERVED_GLOBAL_ sets / TEMPLATE_SUFFIX, T2 translation of the alias rule and of _field_is_instance, of the '
@@ -435,8 +494,9 @@ def main(chk: core.Check, replay: typing.Optional[str] = None) -> int:
         from tools.translators import gen_c16
         d = gen_c16.data()
         ids = gen_c16.class_ids(d)
-        global TOP_LEVEL_ONLY
+        global TOP_LEVEL_ONLY, CHAIN_ENDS_AT_ANY
         TOP_LEVEL_ONLY = bool(d.get('index_top_level_only'))
+        CHAIN_ENDS_AT_ANY = bool(d.get('chain_ends_at_any'))
     except Exception as ex:  # translator failed closed: keep going with the oracle only
         broken.append('translator data unavailable: %s' % ex)
         ids = {}
@@ -451,7 +511,8 @@ def main(chk: core.Check, replay: typing.Optional[str] = None) -> int:
                              'seq': ['SignedIntegerType', 'UnsignedIntegerType'], 'get': []},
                             {'policy': 'FIND_ALL', 'fs': ['sub/StructureType.j2', 'CompositeType.j2'], 'pkg': ['StructureType.j2'],
                              'seq': ['StructureType'], 'get': []},
-                            {'policy': 'FIND_ALL', 'fs': ['CompositeType.j2'], 'pkg': ['StructureType.j2'], 'seq': ['StructureType'], 'get': []}],
+                            {'policy': 'FIND_ALL', 'fs': ['CompositeType.j2'], 'pkg': ['StructureType.j2'], 'seq': ['StructureType'], 'get': []},
+                            {'policy': 'FIND_FIRST', 'fs': ['ABC.j2'], 'pkg': ['StructureType.j2'], 'seq': ['StructureType'], 'get': []}],
                  'tests': True,
                  'env': [{'lang': 'c', 'allow': False, 'globals': {'range': 1}, 'filters': None, 'tests': None, 'dsdl': False, 'post': []}]}
     probe = run_impl(probe_doc)
@@ -467,9 +528,11 @@ def main(chk: core.Check, replay: typing.Optional[str] = None) -> int:
     live_glob = probe['env'][0].get('globals', {}).get('range') == 'U1'
     live_subdir = 'err' not in probe['lookup'][1] and impl_outcomes(probe['lookup'][1]) == ['R:P:StructureType.j2']
     live_shadow = 'err' not in probe['lookup'][2] and impl_outcomes(probe['lookup'][2]) == ['R:U0:CompositeType.j2']
+    live_chain = 'err' not in probe['lookup'][3] and impl_outcomes(probe['lookup'][3]) == ['R:U0:ABC.j2']
+    q_chain = live_chain and chk.is_known(KF_CHAIN)
     q_subdir = live_subdir and chk.is_known(KF_SUBDIR)
     q_shadow = live_shadow and chk.is_known(KF_SHADOW)
-    for fid, live in ((KF_MEMO, live_memo), (KF_ATTR, live_attr), (KF_GLOB, live_glob), (KF_SUBDIR, live_subdir), (KF_SHADOW, live_shadow)):
+    for fid, live in ((KF_MEMO, live_memo), (KF_ATTR, live_attr), (KF_GLOB, live_glob), (KF_SUBDIR, live_subdir), (KF_SHADOW, live_shadow), (KF_CHAIN, live_chain)):
         if live and chk.is_known(fid):
             chk.report_known(fid)
     q_shared = live_memo and chk.is_known(KF_MEMO)
@@ -501,14 +564,27 @@ def main(chk: core.Check, replay: typing.Optional[str] = None) -> int:
         if key not in seen_ref:
             seen_ref[key] = len(ref_cases)
             ref_cases.append({'lang': c['lang'], 'allow': False, 'globals': None, 'filters': None, 'tests': None, 'dsdl': c['dsdl'], 'post': []})
-    impl = run_impl({'lookup': lk_cases, 'env': ref_cases + env_cases})
+    e2e_specs = [] if replay else gen_e2e_cases(chk.rng, 36 if chk.tier == 'quick' else 300)
+    impl = run_impl({'lookup': lk_cases, 'env': ref_cases + env_cases, 'e2e': e2e_specs})
     if 'harness_error' in impl:
         chk.violation({'what': 'C16 harness could not run', 'output': impl['harness_error'], 'broken': broken}, found_input=False)
         return chk.finish()
+    # end-to-end stratum: every real generate_all run becomes a lookup case whose outcomes were read from the generated files
+    n_plain = len(lk_cases)
+    tpl_listing = (d or {}).get('templates') or {}
+    for spec, r in zip(e2e_specs, impl.get('e2e', [])):
+        if 'err' in r:
+            lk_cases.append({'policy': spec['policy'], 'fs': None, 'pkg': None, 'seq': [], 'get': [], 'e2e': spec})
+            impl['lookup'].append({'err': 'end-to-end run failed: ' + r['err']})
+            continue
+        dirs = spec['dirs']
+        lk_cases.append({'policy': spec['policy'], 'fs': None if dirs is None else dirs[0], 'fs_more': [] if dirs is None else dirs[1:],
+                         'pkg': list(tpl_listing.get(spec['lang'], [])), 'seq': r['seq'], 'get': [], 'e2e': spec})
+        impl['lookup'].append({'out': r['out'], 'res': [None] * len(r['seq']), 'src': [None] * len(r['seq']), 'get': []})
 
-    stats = {'decoy_files': sum(1 for c in lk_cases for k in ('fs', 'pkg') for x in (c[k] or []) if stem(x) not in chains or '/' in x),
-             'lookup_cases': len(lk_cases), 'lookups': 0, 'warm_lookups': 0, 'both_loaders': 0, 'find_first': 0, 'multi_user_dirs': 0,
-             'subdir_trigger_cases': 0, 'shadow_trigger_lookups': 0, 'known_subdir_instances': 0, 'known_shadow_instances': 0,
+    stats = {'decoy_files': sum(1 for c in lk_cases[:n_plain] for k in ('fs', 'pkg') for x in (c[k] or []) if stem(x) not in chains or '/' in x),
+             'lookup_cases': n_plain, 'lookups': 0, 'warm_lookups': 0, 'both_loaders': 0, 'find_first': 0, 'multi_user_dirs': 0,
+             'subdir_trigger_cases': 0, 'shadow_trigger_lookups': 0, 'known_subdir_instances': 0, 'known_shadow_instances': 0, 'known_chain_instances': 0, 'e2e_cases': 0, 'e2e_types_generated': 0,
              'rendered_none': 0, 'rendered_user': 0, 'rendered_user_not_first_dir': 0, 'rendered_builtin': 0, 'nearest_not_self': 0,
              'template_not_found': 0, 'test_evaluations': 0, 'test_values': 0, 'known_attr_instances': 0, 'known_memo_instances': 0,
              'env_cases': len(env_cases), 'env_errors': 0, 'env_dsdl_mode': 0, 'known_glob_instances': 0, 'env_allow': 0}
@@ -551,6 +627,13 @@ def main(chk: core.Check, replay: typing.Optional[str] = None) -> int:
             bad_oracle.append(('lookup', c, 'no exception', got['err'], model))
             continue
         iout = impl_outcomes(got)
+        if c.get('e2e'):   # a built-in template leaves no marker: only the origin is observable
+            stats['e2e_cases'] += 1
+            stats['e2e_types_generated'] += sum(1 for o in iout if o.startswith('R:'))
+            prop = ['R:P' if o.startswith('R:P:') else o for o in prop]
+            if model is not None and 'bad' not in model:
+                model['out'] = ['R:P' if o.startswith('R:P:') else o for o in model['out']]
+                model['prop'] = ['R:P' if o.startswith('R:P:') else o for o in model['prop']]
         exp_get = [oracle_source(c, n) for n in c['get']]
         got_get = [None if x is None else x.strip() for x in got['get']]
         for j, cn in enumerate(c['seq']):
@@ -577,6 +660,8 @@ def main(chk: core.Check, replay: typing.Optional[str] = None) -> int:
             same_as_model = (mout is None) or (model is not None and 'bad' not in model and model['out'][j] == iout[j])
             if sub_t and q_subdir and same_as_model and got['res'][j] is not None and '/' in got['res'][j]:
                 stats['known_subdir_instances'] += 1
+            elif q_chain and same_as_model and chain_trigger(chains, c, cn):
+                stats['known_chain_instances'] += 1
             elif sh_t and q_shadow and same_as_model:
                 stats['known_shadow_instances'] += 1
             else:
@@ -589,13 +674,14 @@ def main(chk: core.Check, replay: typing.Optional[str] = None) -> int:
             traces += 1
             mget = [None if g is None else g for g in model.get('get', [])]
             iget = [None if g is None else g.split(':', 1)[0] for g in got_get]
-            if 'bad' in model or model['res'] != got['res'] or model['out'] != iout or mget != iget:
+            if 'bad' in model or (not c.get('e2e') and model['res'] != got['res']) or model['out'] != iout or mget != iget:
                 bad_model.append(('lookup', c, model, {'res': got['res'], 'rendered': iout, 'get': got_get}))
             elif not q_shared and model['res'] != model['spec']:
                 bad_model.append(('lookup: model differs from its own nearest-ancestor spec', c, model, got))
             elif model['prop'] != prop:
                 bad_model.append(('lookup: Coq statement of the property (p_spec_rendered) differs from the Python oracle', c, model, prop))
-            elif any(model['flat'] and sf and model['out'][j] != model['prop'][j] for j, sf in enumerate(model['shadow_free'])):
+            elif any(model['flat'] and sf and model['out'][j] != model['prop'][j] and (CHAIN_ENDS_AT_ANY or not chain_trigger(chains, c, c['seq'][j]))
+                     for j, sf in enumerate(model['shadow_free'])):
                 bad_model.append(('lookup: model contradicts C16_rendered_file_partial', c, model, got))
 
     # ---- 2. instance tests on real pydsdl objects -------------------------------------------------------------------------
@@ -697,7 +783,7 @@ def main(chk: core.Check, replay: typing.Optional[str] = None) -> int:
         'samples': [lk_cases[i] for i in range(0, min(len(lk_cases), 400), 57)] + env_cases[:3],
         'traces_validated_against_impl': traces,
         'distribution': stats,
-        'quirks_probed': {KF_MEMO: live_memo, KF_ATTR: live_attr, KF_GLOB: live_glob, KF_SUBDIR: live_subdir, KF_SHADOW: live_shadow},
+        'quirks_probed': {KF_MEMO: live_memo, KF_ATTR: live_attr, KF_GLOB: live_glob, KF_SUBDIR: live_subdir, KF_SHADOW: live_shadow, KF_CHAIN: live_chain},
         'rendered_file': 'oracle = property reading of C16_rendered_file_partial (most specific class with <Class>.j2 in ANY root, file of the '
                          'first root); deviations only under the two listed findings (%d sub-directory, %d user-general-first instances, '
                          'each reproduced by the model)' % (stats['known_subdir_instances'], stats['known_shadow_instances']),
@@ -708,7 +794,7 @@ def main(chk: core.Check, replay: typing.Optional[str] = None) -> int:
         rep = {'what': 'implementation violates the property (%s)' % kind, 'expected_by_property': exp, 'implementation': got, 'model': model,
                'broken': broken, 'n_failing': len(bad_oracle)}
         if kind == 'lookup':
-            small = shrink_lookup(c, chains, q_subdir, q_shadow)
+            small = shrink_lookup(c, chains, q_subdir, q_shadow, q_chain) if not c.get('e2e') else c
             rep['lookup_case'] = small
             rep['original_case'] = c
             if small is not c:
@@ -753,7 +839,7 @@ def run_chain_dump() -> typing.Optional[dict]:
         return None
 
 
-def lookup_fails(c: dict, got: dict, chains, q_subdir: bool, q_shadow: bool) -> bool:
+def lookup_fails(c: dict, got: dict, chains, q_subdir: bool, q_shadow: bool, q_chain: bool = False) -> bool:
     """the implementation's rendered files differ from the property's, outside the listed findings' triggers"""
     iout, prop = impl_outcomes(got), oracle_rendered(chains, c)
     sub_t = subdir_trigger(c) and q_subdir
@@ -762,15 +848,16 @@ def lookup_fails(c: dict, got: dict, chains, q_subdir: bool, q_shadow: bool) -> 
         return r is not None and '/' in r and iout[j].startswith('R:') and iout[j].split(':', 2)[2] == r
     return any(iout[j] != prop[j] and not (sub_t and got['res'][j] is not None and '/' in got['res'][j])
                and not (not q_subdir and chosen_is_rendered(j))
+               and not (q_chain and chain_trigger(chains, c, cn))
                and not (q_shadow and shadow_trigger(chains, c, cn)) for j, cn in enumerate(c['seq']))
 
 
-def shrink_lookup(case: dict, chains, q_subdir: bool = False, q_shadow: bool = False) -> dict:
+def shrink_lookup(case: dict, chains, q_subdir: bool = False, q_shadow: bool = False, q_chain: bool = False) -> dict:
     def fails(c):
         r = run_impl({'lookup': [c]})
         if 'harness_error' in r or 'err' in r['lookup'][0]:
             return False
-        return lookup_fails(c, r['lookup'][0], chains, q_subdir, q_shadow)
+        return lookup_fails(c, r['lookup'][0], chains, q_subdir, q_shadow, q_chain)
     cur = dict(case, get=[])
     if not fails(cur):
         return case
